@@ -113,7 +113,8 @@ class MoreInfoFromHeaderMixin:
 
         try:
             date = parsedate_to_datetime(value)
-        except (TypeError, ValueError):
+        except (TypeError, ValueError, OverflowError):
+            # OverflowError: a zone offset too large for a timedelta
             return None
 
         if date.tzinfo is None:
